@@ -192,7 +192,7 @@ func (pkg *Package) AllChildren(target *BuildTarget) []*BuildTarget {
 // IsIncludedIn returns true if the given build label would include this package.
 // e.g. //src/... includes the packages src and src/core but not src2.
 func (pkg *Package) IsIncludedIn(label BuildLabel) bool {
-	return pkg.Name == label.PackageName || strings.HasPrefix(pkg.Name, label.PackageName+"/")
+	return label.PackageName == "" || pkg.Name == label.PackageName || strings.HasPrefix(pkg.Name, label.PackageName+"/")
 }
 
 // Label returns a build label uniquely identifying this package.
